@@ -710,8 +710,17 @@ pub fn check_main(space: &(dyn Space + Sync), cfg: &RunCfg) -> i32 {
                     .iter()
                     .map(|v| (v.idx, v.sig.clone()))
                     .collect();
+                let mut dropped: HashSet<String> = HashSet::new();
                 for v in &unknown {
                     if reps.contains(&v.idx) && !again_set.contains(&(v.idx, v.sig.clone())) {
+                        if v.sig.starts_with("timeout") {
+                            // a time limit that is exceeded once under load and met when the case runs
+                            // alone is a property of the machine, not of the code: recorded, not reported
+                            eprintln!("[{}] timeout did not recur in isolation, dropped: {}", id, util::clip(&v.case, 100));
+                            agg.caps.push(format!("timeout did not recur in isolation: {}", util::clip(&v.case, 100)));
+                            dropped.insert(v.sig.clone());
+                            continue;
+                        }
                         // a non-reproducing violation is a machinery error
                         eprintln!(
                             "MACHINERY-ERROR {}: violation did not reproduce: idx={} sig={} case={}",
@@ -720,7 +729,7 @@ pub fn check_main(space: &(dyn Space + Sync), cfg: &RunCfg) -> i32 {
                         return 2;
                     }
                 }
-                confirmed = unknown.clone();
+                confirmed = unknown.iter().filter(|v| !dropped.contains(&v.sig)).cloned().collect();
             }
             Err(e) => {
                 eprintln!("MACHINERY-ERROR {}: confirmation run failed: {}", id, e);
